@@ -103,7 +103,7 @@ pub fn run(out: &mut Out, thorough: bool) {
         }
         out.check(&format!("spok/{}-U={:?}/other-signer-key-after-acceptance", k, u), "proof_verify", vec![], false, &[], || p.proof_verify(&cpa, pb, &bl, &rev, u, nn));
         // signer keys that share the modulus and differ in b or c (single-field edits of pk), right after the acceptance
-        for (fname, delta) in [("b", 1), ("b", -1), ("c", 1)] {
+        for (fname, delta) in [("b", 1), ("b", -1), ("c", 1), ("N", 2), ("N", -2)] {
             let mut jpk = jv(pa);
             let x = get_int(at(&jpk, &format!("/{}", fname))) + delta;
             set(&mut jpk, &format!("/{}", fname), int_json(&x));
